@@ -115,7 +115,8 @@ WriteFileD(fmt, attrs, types, tuples, dev) ==
 WriteFile(fmt, attrs, types, tuples) == WriteFileD(fmt, attrs, types, tuples, {})
 
 \* ---- container reader ----------------------------------------------------------------
-Fail == [ok |-> FALSE]
+Fail == [ok |-> FALSE, uw |-> FALSE]
+FailU == [ok |-> FALSE, uw |-> TRUE]     \* failed on an unsigned element that is a literal outside 0..2^32-1
 Ok(v, p, strict) == [ok |-> TRUE, v |-> v, p |-> p, strict |-> strict]
 RECURSIVE DropTrailBlanks(_)
 DropTrailBlanks(t) == IF t # <<>> /\ t[Len(t)] \in Blanks THEN DropTrailBlanks(SubSeq(t, 1, Len(t) - 1)) ELSE t
@@ -145,7 +146,8 @@ ParseVal(ty, t, p, closer) ==
                   core == DropTrailBlanks(tok)
                   c == ClassifyScalar(ty, core)
               IN  IF c.cls \in {"accept", "either"} /\ c.v.k # "tiny"
-                  THEN Ok(ScalarValue(c), q, c.cls = "accept" /\ core = tok) ELSE Fail)
+                  THEN Ok(ScalarValue(c), q, c.cls = "accept" /\ core = tok)
+                  ELSE IF ty = "u" /\ c.why = "range" THEN FailU ELSE Fail)
     ELSE IF ty = "s" THEN
         (IF p <= Len(t) /\ t[p] = Q THEN
             LET e == QuotedEnd(t, p + 1, <<>>) IN IF e.ok THEN Ok([k |-> "s", c |-> e.c], e.p, TRUE) ELSE Fail
@@ -155,7 +157,7 @@ ParseVal(ty, t, p, closer) ==
         (IF Occurs(<<"n", "i", "l">>, t, p) THEN Ok([k |-> "nil"], p + 3, TRUE)
          ELSE IF p <= Len(t) /\ t[p] = "[" THEN
             LET es == ParseElems(Types[ty].f, t, p + 1, "]", 1, <<>>, TRUE) IN
-            IF es.ok THEN Ok([k |-> "rec", a |-> es.v], es.p, es.strict) ELSE Fail
+            IF es.ok THEN Ok([k |-> "rec", a |-> es.v], es.p, es.strict) ELSE es
          ELSE Fail)
     ELSE \* ADT
         (IF ~(p <= Len(t) /\ t[p] = "$") THEN Fail
@@ -170,7 +172,7 @@ ParseVal(ty, t, p, closer) ==
                             IF ~(o <= Len(t) /\ t[o] = "(") THEN Fail
                             ELSE LET es == ParseElems(br.f, t, o + 1, ")", 1, <<>>, TRUE) IN
                                  IF es.ok THEN Ok([k |-> "adt", b |-> br.n, a |-> es.v], es.p, es.strict /\ n0 = p + 1 /\ o = n1)
-                                 ELSE Fail)
+                                 ELSE es)
 
 \* elements i..n of a container; p is just after '[' / '(' (i = 1) or after the previous element
 ParseElems(fs, t, p, closer, i, acc, strict) ==
@@ -185,7 +187,7 @@ ParseElems(fs, t, p, closer, i, acc, strict) ==
             canon == (i = 1 /\ b = a) \/ (i > 1 /\ c = p /\ (b = a \/ (b = a + 1 /\ t[a] = " ")))
         IN  IF ~okSep THEN Fail
             ELSE LET r == ParseVal(fs[i], t, b, closer) IN
-                 IF ~r.ok THEN Fail ELSE ParseElems(fs, t, r.p, closer, i + 1, Append(acc, r.v), strict /\ canon /\ r.strict)
+                 IF ~r.ok THEN r ELSE ParseElems(fs, t, r.p, closer, i + 1, Append(acc, r.v), strict /\ canon /\ r.strict)
 
 \* a whole field of a fact file: class and value (C18), for every column type
 ClassifyField(ty, t) ==
@@ -196,30 +198,37 @@ ClassifyField(ty, t) ==
     ELSE LET b == RunEnd(t, 1, Blanks)
              r == ParseVal(ty, t, b, "\n") IN          \* no closer at top level: "\n" cannot occur inside a field here
          IF r.ok /\ r.p = Len(t) + 1 THEN Res(IF r.strict /\ b = 1 THEN "accept" ELSE "either", r.v, "")
-         ELSE Res("reject", NoVal, "shape")
+         ELSE Res("reject", NoVal, IF ~r.ok /\ r.uw THEN "range-nested-unsigned" ELSE "shape")
 
 \* ---- line / file reader ------------------------------------------------------------------
 \* Plain text: a field ends at the first delimiter outside brackets when the delimiter contains ',' (the reader's
 \* "record/tuple delimiter coincidence" rule; the specification counts '(' ')' as well as '[' ']' so that ADT
 \* arguments are protected like record elements), otherwise at the first delimiter.
+Opens == {"[", "("}
+Closes == {"]", ")"}
+Match(o, c) == (o = "[" /\ c = "]") \/ (o = "(" /\ c = ")")
 RECURSIVE DepthScan(_, _, _, _)
-\* first position q >= p with depth 0 where delim occurs (or Len+1); -1 when a bracket closes below depth 0
-DepthScan(t, p, delim, depth) ==
-    IF p > Len(t) THEN (IF depth = 0 THEN p ELSE -1)
-    ELSE IF depth = 0 /\ Occurs(delim, t, p) THEN p
-    ELSE IF t[p] \in {"[", "("} THEN DepthScan(t, p + 1, delim, depth + 1)
-    ELSE IF t[p] \in {"]", ")"} THEN (IF depth = 0 THEN -1 ELSE DepthScan(t, p + 1, delim, depth - 1))
-    ELSE DepthScan(t, p + 1, delim, depth)
-FieldEnd(fmt, t, p) == IF Has(fmt.delim, ",") THEN DepthScan(t, p, fmt.delim, 0) ELSE Find(fmt.delim, t, p)
+\* first position q >= p outside all brackets where delim occurs (or Len+1 at the end of the line);
+\* -1 when brackets do not nest properly (st = stack of open brackets)
+DepthScan(t, p, delim, st) ==
+    IF p > Len(t) THEN (IF st = <<>> THEN p ELSE -1)
+    ELSE IF st = <<>> /\ Occurs(delim, t, p) THEN p
+    ELSE IF t[p] \in Opens THEN DepthScan(t, p + 1, delim, <<t[p]>> \o st)
+    ELSE IF t[p] \in Closes THEN (IF st # <<>> /\ Match(st[1], t[p]) THEN DepthScan(t, p + 1, delim, Tail(st)) ELSE -1)
+    ELSE DepthScan(t, p + 1, delim, st)
+FieldEnd(fmt, t, p) == IF Has(fmt.delim, ",") THEN DepthScan(t, p, fmt.delim, <<>>) ELSE Find(fmt.delim, t, p)
 
 Err == [ok |-> FALSE]
 Good(v) == [ok |-> TRUE, v |-> v]
+\* fmt.lx (optional): text after the last column's field is ignored (used by C18 to classify lines with surplus fields,
+\* about which the property is silent, as "either")
+LX(fmt) == "lx" \in DOMAIN fmt /\ fmt.lx
 RECURSIVE SplitPlain(_, _, _, _)
 \* the n fields of a line: Good(field texts) or Err
 SplitPlain(fmt, t, p, n) ==
     LET e == FieldEnd(fmt, t, p) IN
     IF e = -1 THEN Err
-    ELSE IF n = 1 THEN (IF e = Len(t) + 1 THEN Good(<<SubSeq(t, p, e - 1)>>) ELSE Err)
+    ELSE IF n = 1 THEN (IF e = Len(t) + 1 \/ LX(fmt) THEN Good(<<SubSeq(t, p, e - 1)>>) ELSE Err)
     ELSE IF e = Len(t) + 1 THEN Err
     ELSE LET rest == SplitPlain(fmt, t, e + Len(fmt.delim), n - 1) IN
          IF ~rest.ok THEN Err ELSE Good(<<SubSeq(t, p, e - 1)>> \o rest.v)
@@ -228,10 +237,10 @@ RECURSIVE Lines(_, _)
 Lines(t, p) == IF p > Len(t) THEN <<>>
                ELSE LET e == Find(<<NL>>, t, p) IN <<SubSeq(t, p, e - 1)>> \o Lines(t, e + 1)
 
-ParseTuple(types, fields) ==          \* Good(sequence of values) or Err
+ParseTuple(types, fields) ==          \* [ok, v (sequence of values), strict (every field in canonical form), cs (field classes)]
     LET cs == [i \in 1..Len(types) |-> ClassifyField(types[i], fields[i])] IN
-    IF \E i \in 1..Len(types) : cs[i].cls \notin {"accept", "either"} THEN Err
-    ELSE Good([i \in 1..Len(types) |-> cs[i].v])
+    IF \E i \in 1..Len(types) : cs[i].cls \notin {"accept", "either"} THEN [ok |-> FALSE, cs |-> cs]
+    ELSE [ok |-> TRUE, v |-> [i \in 1..Len(types) |-> cs[i].v], strict |-> \A i \in 1..Len(types) : cs[i].cls = "accept", cs |-> cs]
 
 \* rfc4180: one logical record starting at p: fields are "quoted" ("" = quote, may span lines) or bare.
 RECURSIVE RfcQuoted(_, _, _)
@@ -252,38 +261,44 @@ RfcFields(fmt, t, p, n, acc) ==
         ok == IF quoted THEN qf.ok ELSE TRUE
         txt == IF quoted THEN qf.c ELSE SubSeq(t, p, bareEnd - 1)
         e == IF quoted THEN qf.p ELSE bareEnd
+        st == quoted \/ ~Has(txt, Q)          \* a '"' inside a bare field: RFC 4180 forbids it, the reader takes it literally
     IN  IF ~ok THEN Fail
-        ELSE IF n = 1 THEN (IF e = Len(t) + 1 \/ t[e] = NL THEN [ok |-> TRUE, fs |-> Append(acc, txt), p |-> e + 1] ELSE Fail)
-        ELSE IF Occurs(fmt.delim, t, e) THEN RfcFields(fmt, t, e + Len(fmt.delim), n - 1, Append(acc, txt))
+        ELSE IF n = 1 THEN (IF e = Len(t) + 1 \/ t[e] = NL THEN [ok |-> TRUE, fs |-> Append(acc.fs, txt), p |-> e + 1, strict |-> acc.strict /\ st]
+                            ELSE IF LX(fmt) /\ Occurs(fmt.delim, t, e) THEN [ok |-> TRUE, fs |-> Append(acc.fs, txt), p |-> Find(<<NL>>, t, e) + 1, strict |-> FALSE]
+                            ELSE Fail)
+        ELSE IF Occurs(fmt.delim, t, e) THEN RfcFields(fmt, t, e + Len(fmt.delim), n - 1, [fs |-> Append(acc.fs, txt), strict |-> acc.strict /\ st])
         ELSE Fail
 
 RECURSIVE RfcRecords(_, _, _, _)
 RfcRecords(fmt, types, t, p) ==
-    IF p > Len(t) THEN Good(<<>>)
-    ELSE LET r == RfcFields(fmt, t, p, Len(types), <<>>) IN
+    IF p > Len(t) THEN [ok |-> TRUE, v |-> <<>>, strict |-> TRUE]
+    ELSE LET r == RfcFields(fmt, t, p, Len(types), [fs |-> <<>>, strict |-> TRUE]) IN
          IF ~r.ok THEN Err
          ELSE LET tup == ParseTuple(types, r.fs)
                   rest == RfcRecords(fmt, types, t, r.p) IN
-              IF ~tup.ok \/ ~rest.ok THEN Err ELSE Good(<<tup.v>> \o rest.v)
+              IF ~tup.ok \/ ~rest.ok THEN Err ELSE [ok |-> TRUE, v |-> <<tup.v>> \o rest.v, strict |-> r.strict /\ tup.strict /\ rest.strict]
 
-\* ReadFile: Good(sequence of tuples) or Err
+\* ReadFile: [ok |-> TRUE, v |-> sequence of tuples, strict |-> only canonical forms were used]
+\*        or [ok |-> FALSE, line |-> number of the first offending line (plain text formats; 0 = not modelled)]
 ReadFile(fmt, types, text) ==
     LET body == IF fmt.headers THEN From(text, Find(<<NL>>, text, 1) + 1) ELSE text IN
-    IF fmt.rfc THEN RfcRecords(fmt, types, body, 1)
+    IF fmt.rfc THEN (LET r == RfcRecords(fmt, types, body, 1) IN IF r.ok THEN r ELSE [ok |-> FALSE, line |-> 0])
     ELSE LET ls == Lines(body, 1)
              fs == [i \in 1..Len(ls) |-> SplitPlain(fmt, ls[i], 1, Len(types))]
              ts == [i \in 1..Len(ls) |-> IF fs[i].ok THEN ParseTuple(types, fs[i].v) ELSE Err]
-         IN  IF \E i \in 1..Len(ls) : ~ts[i].ok THEN Err ELSE Good([i \in 1..Len(ls) |-> ts[i].v])
+             bad == {i \in 1..Len(ls) : ~ts[i].ok}
+         IN  IF bad # {} THEN [ok |-> FALSE, line |-> MinOf(bad) + (IF fmt.headers THEN 1 ELSE 0)]
+             ELSE [ok |-> TRUE, v |-> [i \in 1..Len(ls) |-> ts[i].v], strict |-> \A i \in 1..Len(ls) : ts[i].strict]
 
 \* ---- representability, by character classes --------------------------------------------------
 \* Plain text formats cannot carry in a symbol: a newline; the delimiter; with a ','-delimiter an unbalanced
 \* bracket; and, for a symbol inside a record / ADT (written raw): ',' , the container's closing bracket, a leading
 \* blank or a leading '"'.  Under rfc4180 everything is quoted and escaped: every symbol is representable.
 RECURSIVE Balanced(_, _, _)
-Balanced(t, p, depth) == IF p > Len(t) THEN depth = 0
-                         ELSE IF t[p] \in {"[", "("} THEN Balanced(t, p + 1, depth + 1)
-                         ELSE IF t[p] \in {"]", ")"} THEN depth > 0 /\ Balanced(t, p + 1, depth - 1)
-                         ELSE Balanced(t, p + 1, depth)
+Balanced(t, p, st) == IF p > Len(t) THEN st = <<>>
+                      ELSE IF t[p] \in Opens THEN Balanced(t, p + 1, <<t[p]>> \o st)
+                      ELSE IF t[p] \in Closes THEN st # <<>> /\ Match(st[1], t[p]) /\ Balanced(t, p + 1, Tail(st))
+                      ELSE Balanced(t, p + 1, st)
 RECURSIVE SymsOK(_, _, _)
 \* every symbol inside value v of type ty (closer = closing bracket of the enclosing container, "" at top level)
 SymsOK(ty, v, closer) ==
@@ -299,10 +314,10 @@ Representable(fmt, types, tup) ==
         n == Len(types)
     IN  /\ \A i \in 1..n : SymsOK(types[i], tup[i], "")
         /\ \A i \in 1..n : ~Has(ft[i], NL)
-        /\ \A i \in 1..n : Has(fmt.delim, ",") => Balanced(ft[i], 1, 0)
+        /\ \A i \in 1..n : Has(fmt.delim, ",") => Balanced(ft[i], 1, <<>>)
         \* the first delimiter found after the start of field i is the one the writer put there
         /\ \A i \in 1..n : LET probe == IF i < n THEN ft[i] \o fmt.delim ELSE ft[i] IN
-                           IF Has(fmt.delim, ",") THEN DepthScan(probe, 1, fmt.delim, 0) = Len(ft[i]) + 1
+                           IF Has(fmt.delim, ",") THEN DepthScan(probe, 1, fmt.delim, <<>>) = Len(ft[i]) + 1
                            ELSE Find(fmt.delim, probe, 1) = Len(ft[i]) + 1
 
 \* the round trip the specification promises
